@@ -107,6 +107,7 @@ func Profile(name string) Knobs {
 		k := base
 		k.PSkeleton = 0.2
 		k.PDefer, k.PDeferCall, k.PDeferFail = 0.4, 0.2, 0.3
+		k.PLoop, k.PMatrix = 0.2, 0.08
 		k.MaxEntries = 5
 		k.PFail, k.MaxFails = 0.2, 2
 		k.PIgnoreCmd = 0.15
@@ -353,6 +354,19 @@ func generate(rng *rand.Rand, k Knobs, profile string) *Prog {
 			}
 		}
 	}
+	// two deduplicated tasks of the included file whose names end alike after a ':' (docker:build / go:build):
+	// their identities must stay distinct
+	if nfiles > 0 && rng.Intn(2) == 0 {
+		var shared []*Task
+		for _, t := range p.Tasks {
+			if t.File == 1 && t.Run == Once {
+				shared = append(shared, t)
+			}
+		}
+		if len(shared) >= 2 {
+			shared[0].Name, shared[1].Name = "ga:w", "gb:w"
+		}
+	}
 	// some references pass a bad value to a task whose requires/enum guard other references satisfy
 	if k.PGuard > 0 {
 		mark := func(r *Ref) {
@@ -400,10 +414,13 @@ func generate(rng *rand.Rand, k Knobs, profile string) *Prog {
 
 func randMatrix(rng *rand.Rand) []MatrixRow {
 	keys := []string{"A", "B", "C"}
-	nk := 1 + rng.Intn(2)
+	nk := 1 + rng.Intn(3)
 	var rows []MatrixRow
 	for i := 0; i < nk; i++ {
 		vals := []string{"p", "q", "r"}[:1+rng.Intn(3)]
+		if nk == 3 {
+			vals = []string{"p", "q"}[:1+rng.Intn(2)] // keep the product small: at most 8 combinations
+		}
 		var vs []string
 		for _, v := range vals {
 			vs = append(vs, fmt.Sprintf("%s%d", v, i))
